@@ -17,7 +17,7 @@ RULE = ("scenario = 1-2 random upstream repositories (1-2 codenames, 1-3 compone
         "with a non-empty fault plan or switch or local fault, distinct by (class, fault kinds, target kind)")
 
 CLASSES = ["none", "transient", "transient", "persistent-required", "persistent-optional", "switch", "local-dir",
-           "transient", "persistent-ignored", "unlisted-uncompressed"]
+           "transient", "persistent-ignored", "unlisted-uncompressed", "variant-downgrade"]
 
 
 def run_one(chk, sseed, cls):
@@ -29,12 +29,35 @@ def run_one(chk, sseed, cls):
     switch = None
     pre = None
     try:
+        downgrade_404 = False
+        if cls == "variant-downgrade":
+            # two runs: the first mirrors V1 in its preferred compression; V2 has other index contents and either no longer
+            # lists that compression or answers 404 for it, so the run obtains a less-preferred variant while the stale
+            # preferred one of V1 is still in skel (seeds agent-C01-1/-2, agent-C03-4/-5: whichever file the pool stage
+            # parses, the published indices' files must be there)
+            for r in w.repos:
+                for cs in r["codenames"].values():
+                    cs["compressions"] = [".xz", ".gz"]
+            w.run(chooser=vloop.RandomChooser(rng.randrange(1 << 30)))
+            run_e2e.flush_l2(chk, {"scenario_seed": sseed, "class": cls, "run": "first"})
+            w.repos = [common.evolve(rng, r) for r in w.repos]
+            downgrade_404 = rng.random() < 0.5
+            for r in w.repos:
+                for cs in r["codenames"].values():
+                    cs["compressions"] = [".xz", ".gz"] if downgrade_404 else [".gz"]
         stores = w.stores()
         for repo in w.repos:
             url = repo["url"]
             pcls = cls if cls in ("none", "transient", "persistent-required", "persistent-optional", "persistent-ignored") else "none"
             plan, info = scenario.gen_plan(rng, pcls, repo, w.cfgs[url], stores[url])
             plans[url], infos[url] = plan, info
+        if downgrade_404:
+            for repo in w.repos:
+                url = repo["url"]
+                for k in stores[url]:
+                    if k.endswith(".xz") and k.startswith("dists/"):
+                        for a in [k] + scenario.byhash_aliases(stores[url], k):
+                            plans[url].append([a, "*", "404"])
         if cls == "switch":
             newrepos = [common.evolve(rng, r) for r in w.repos]
             switch = {"stores": w.stores(newrepos), "after": rng.randint(1, 25)}
